@@ -208,6 +208,8 @@ class StmtMixin:
         broke = False
         while True:
             c = self.ev(s.test)
+            if c.t and c.t[0] in ("list", "tuple", "set") and not any(x and x[0] == "star" for x in c.t[1]):
+                c = const(bool(c.t[1])).with_dep(c.dep)     # `while queue:` on a container whose content is known
             if is_const(c) and not c.t[1]:
                 break
             if k >= max(self.cfg.unroll, 1) + (1 if is_const(c) else 0):
